@@ -22,7 +22,8 @@ ASSUMPTIONS = ['floats as reals', 'tau > 0, gamma > 0, weights > 0 symbolic (bou
                'L1 first-passage percolation, L2 memorylessness, L3 rejection sampling (via C16), L4 Exp mod T',
                'event identity read from the item handed back by the selection primitive; cross-checked with the returned counts']
 OPTS = {'quick': {'max_validate': 3, 'validate_every': 11}, 'thorough': {'max_validate': 3, 'validate_every': 101}}
-MUST_EVALUATE = {'quick': ['clock-rate', 'event-law', 'no-missing-event', 'absorbing-iff-zero-rate', 'counts-follow-events']}
+MUST_EVALUATE = {'quick': ['clock-rate', 'event-law', 'no-missing-event', 'absorbing-iff-zero-rate', 'counts-follow-events', 'sampler-binomial-p', 'sampler-binomial-n',
+                           'sampler-uniform-subset', 'sampler-truncexp', 'sampler-recipients', 'truncexp-contract', 'sampler-density-identity']}
 
 
 def functions():
@@ -52,6 +53,18 @@ def configs(tier):
                         continue      # the full-data mode consumes the same draws (C10); its law is checked unweighted
                     out.append(dict(entry='Gillespie_SIR', graph=g, I0=I0, R0=R0, weights=w, full=full, tmax='inf', wstub='abstract',
                                     tags=[g, 'w:' + w, 'full' if full else 'plain'] + (['R0'] if R0 else [])))
+    # fast_SIR, constant-rate path: sampler factorisation
+    for g in ['K2', 'P3', 'K3'] + (['S3', 'P4'] if tier == 'thorough' else []):
+        for I0, R0 in graphs.automorphism_reduced_ics(g):
+            if len(R0) > 1 or (tier == 'quick' and len(I0) > 1 and g != 'P3'):
+                continue
+            for w in ('none', 'node'):
+                out.append(dict(family='sampler', entry='fast_SIR', graph=g, I0=I0, R0=R0, weights=w, full=False, tmax='inf',
+                                tags=['sampler', g, 'w:' + w] + (['R0'] if R0 else [])))
+    out.append(dict(family='truncexp', entry='_truncated_exponential_', tags=['truncexp']))
+    for n in range(0, 4 if tier == 'quick' else 6):
+        for k in range(0, n + 1):
+            out.append(dict(family='density', entry='sampler density identity', n=n, k=k, tags=['density']))
     return out
 
 
@@ -64,7 +77,135 @@ def event_of_step(chosen, status, draws):
     return ('rec', item)
 
 
+def run_sampler(h, cfg):
+    """fast_SIR constant-rate path: per newly infected node the code draws D ~ Exp(gamma w_u), K ~ Bin(n, 1-exp(-tau D)) with n = number of
+    susceptible neighbours, a uniform K-subset of exactly those neighbours, and one TruncExp(tau, D) delay per recipient"""
+    import z3 as _z3
+    from vlib.symx import EQ, show, Sym, EXP
+    eng = symx.ENG
+    r = simruns.setup(cfg)
+    real = r.sim._trans_and_rec_time_Markovian_const_trans_
+    calls = []
+
+    def spy(node, sus, tau, rec_rate_fxn):
+        n0 = len(eng.log)
+        out = real(node, sus, tau, rec_rate_fxn)
+        calls.append((node, list(sus), tau, eng.log[n0:], out))
+        return out
+    r.sim._trans_and_rec_time_Markovian_const_trans_ = spy
+    try:
+        ret = simruns.call_entry(h, r, 'no-exception')
+    finally:
+        r.sim._trans_and_rec_time_Markovian_const_trans_ = real
+    if ret is None:
+        return None
+    if not calls:
+        h.fail('sampler-used', {'why': 'constant-rate sampler not reached'})
+        return None
+    status = {n: ('I' if n in r.I0 else 'R' if n in r.R0 else 'S') for n in r.nodes}
+    for (node, sus, tau, log, out) in calls:
+        draws = [e for e in log if e[0] in ('expo', 'binomial', 'sample', 'truncexp')]
+        kinds = [e[0] for e in draws]
+        if len(kinds) < 3 or kinds[0] != 'expo' or kinds[1] != 'binomial' or kinds[2] != 'sample' or any(k != 'truncexp' for k in kinds[3:]):
+            h.fail('sampler-protocol', {'node': str(node), 'draws': kinds})
+            continue
+        ex, bi, sa, tr = draws[0], draws[1], draws[2], draws[3:]
+        D = ex[2]
+        h.require('sampler-duration-rate', EQ(ex[1], simruns.rec_rate(r, node)), {'node': str(node), 'rate_used': show(ex[1])})
+        h.require('sampler-tau', EQ(tau, r.tau), {'tau_used': show(tau)})
+        # the susceptible neighbours handed in are exactly the neighbours not yet infected / recovered
+        want_sus = sorted([v for v in r.G.neighbors(node)], key=str)
+        if not set(sus) <= set(want_sus):
+            h.fail('sampler-binomial-n', {'node': str(node), 'sus': [str(x) for x in sus]})
+        n_ = bi[1]
+        if n_ != len(sus):
+            h.fail('sampler-binomial-n', {'node': str(node), 'n': n_, 'susceptible_neighbours': len(sus)})
+        else:
+            h.require('sampler-binomial-n', True)
+        pexpr = bi[2]
+        if n_ > 0:        # with no susceptible neighbour the success probability is irrelevant
+            if eng.mode == 'sym':
+                want_p = 1 - Sym(EXP(_z3.simplify(-(symx.lift(r.tau) * symx.lift(D)))))
+                h.require('sampler-binomial-p', EQ(pexpr, want_p), {'p_used': show(pexpr), 'reference': show(want_p)})
+            else:
+                import math as _m
+                want_p = 1 - _m.exp(-float(r.tau) * float(D))
+                h.require('sampler-binomial-p', abs(float(pexpr) - want_p) < 1e-9, {'p_used': float(pexpr), 'reference': want_p})
+        k_ = bi[3]
+        if list(sa[1]) != list(sus) or sa[2] != k_:
+            h.fail('sampler-uniform-subset', {'population': [str(x) for x in sa[1]], 'k': sa[2], 'binomial': k_})
+        else:
+            h.require('sampler-uniform-subset', True)
+        recips = [sa[1][j] for j in sa[3]]
+        if len(tr) != k_:
+            h.fail('sampler-truncexp', {'recipients': k_, 'truncated_draws': len(tr)})
+        else:
+            ok = True
+            for e in tr:
+                ok = ok and h.require('sampler-truncexp', symx.AND(EQ(e[1], r.tau), EQ(e[2], D)), {'rate': show(e[1]), 'T': show(e[2])})
+        delays, dur = out
+        if sorted(delays, key=str) != sorted(recips, key=str):
+            h.fail('sampler-recipients', {'delays_for': [str(x) for x in delays], 'sampled': [str(x) for x in recips]})
+        else:
+            h.require('sampler-recipients', symx.AND(EQ(dur, D), *[EQ(delays[v], tr[i][3]) for i, v in enumerate(recips)]), None)
+    o = simruns.outputs(r, ret)
+    return simruns.result_struct(o, r.nodes)
+
+
+def run_truncexp(h, cfg):
+    """the real _truncated_exponential_: for t = Exp draw, T > 0 the result r satisfies 0 <= r < T and t = r + k T for an integer k >= 0 (L4 gives the law)"""
+    import z3 as _z3
+    from vlib.symx import LE, LT, AND, Sym
+    eng = symx.ENG
+    r = simruns.setup(dict(entry='fast_SIR', graph='K2', I0=[0], R0=[], trunc_stub=False, tags=[]))
+    T = eng.real('T', lo=0, lo_strict=True)
+    rate = eng.real('rate', lo=0, lo_strict=True)
+    n0 = len(eng.log)
+    res = h.call_must_succeed('no-exception', r.sim._truncated_exponential_, rate, T)
+    if res is None:
+        return None
+    ex = [e for e in eng.log[n0:] if e[0] == 'expo']
+    if len(ex) != 1:
+        h.fail('truncexp-contract', {'draws': len(ex)})
+        return None
+    t = ex[0][2]
+    h.require('truncexp-rate', symx.EQ(ex[0][1], rate), None)
+    h.require('truncexp-contract', AND(LE(0, res), LT(res, T)), {'r': symx.show(res)})
+    if eng.mode == 'sym':
+        k = _z3.Int('k_trunc')
+        ok, m = eng.prove(_z3.Exists([k], _z3.And(k >= 0, symx.lift(t) == symx.lift(res) + _z3.ToReal(k) * symx.lift(T))))
+        h.require('truncexp-contract', ok, {'what': 't = r + k T for some integer k >= 0'})
+    return {'r': res}
+
+
+def run_density(h, cfg):
+    """C(n,k)(1-E)^k E^(n-k) * 1/(n!/(n-k)!) * k! * prod f_v/(1-E) = E^(n-k) prod f_v : the sampler's joint density equals that of independent Exp(tau)
+    clocks per neighbour kept iff < D (E = exp(-tau D), f_v = tau exp(-tau x_v))"""
+    import math
+    from vlib.symx import EQ
+    eng = symx.ENG
+    n, k = cfg['n'], cfg['k']
+    E = eng.real('E', lo=0, hi=1, lo_strict=True, hi_strict=True)
+    fs = [eng.real('f%d' % i, lo=0, lo_strict=True) for i in range(k)]
+    lhs = math.comb(n, k) * (1 - E) ** k * E ** (n - k)
+    lhs = lhs * (1 / symx.Sym(symx.lift(math.perm(n, k)))) * math.factorial(k)
+    for f in fs:
+        lhs = lhs * (f / (1 - E))
+    rhs = E ** (n - k)
+    for f in fs:
+        rhs = rhs * f
+    h.require('sampler-density-identity', EQ(lhs, rhs), {'n': n, 'k': k})
+    return None
+
+
 def run_path(h, cfg):
+    fam = cfg.get('family')
+    if fam == 'sampler':
+        return run_sampler(h, cfg)
+    if fam == 'truncexp':
+        return run_truncexp(h, cfg)
+    if fam == 'density':
+        return run_density(h, cfg)
     r = simruns.setup(cfg)
     ret = simruns.call_entry(h, r, 'no-exception')
     if ret is None:
@@ -107,6 +248,8 @@ def base_assumptions(cfg):
 
 
 def post(cfg, records, eng):
+    if cfg.get('family') in ('sampler', 'truncexp', 'density'):
+        return None
     G = graphs.make(cfg['graph'])
     tau, gamma = symx.Sym(z3.Real('tau')), symx.Sym(z3.Real('gamma'))
 
